@@ -14,6 +14,8 @@ pub enum PT {
     I32,
     U8,
     Str,
+    /// string with a three-literal pattern alphabet
+    Str3,
     Unit,
     Tup(Vec<PT>),
     E,       // enum E { A, B(bool), C(bool, int32) }
@@ -45,6 +47,8 @@ fn pt_of(name: &str) -> PT {
         "(int32,int32)" => PT::Tup(vec![PT::I32, PT::I32]),
         "(string,int32)" => PT::Tup(vec![PT::Str, PT::I32]),
         "(int32,string)" => PT::Tup(vec![PT::I32, PT::Str]),
+        "(string3,int32)" => PT::Tup(vec![PT::Str3, PT::I32]),
+        "(int32,string3)" => PT::Tup(vec![PT::I32, PT::Str3]),
         "(int32,int32,int32)" => PT::Tup(vec![PT::I32, PT::I32, PT::I32]),
         _ => PT::Tup(vec![PT::E2, PT::E2]),
     }
@@ -55,7 +59,7 @@ fn ty_of(p: &PT) -> Ty {
         PT::Bool => Ty::Bool,
         PT::I32 => Ty::i32(),
         PT::U8 => Ty::Int(IntKind::U8),
-        PT::Str => Ty::Str,
+        PT::Str | PT::Str3 => Ty::Str,
         PT::Unit => Ty::Unit,
         PT::Tup(ts) => Ty::Tuple(ts.iter().map(ty_of).collect()),
         PT::E => Ty::named("E"),
@@ -72,6 +76,7 @@ fn values(p: &PT) -> Vec<E> {
         PT::I32 => vec![int(0), int(1), int(5)],
         PT::U8 => vec![E::Int(0, IntKind::U8, true), E::Int(1, IntKind::U8, true), E::Int(200, IntKind::U8, true)],
         PT::Str => vec![s("a"), s("b"), s("zz")],
+        PT::Str3 => vec![s("a"), s("b"), s("c"), s("zz")],
         PT::Unit => vec![E::Unit],
         PT::Tup(ts) => {
             let mut acc: Vec<Vec<E>> = vec![vec![]];
@@ -148,11 +153,16 @@ fn patterns(p: &PT, depth: u32) -> Vec<Pat> {
             v.push(Pat::Str("a".into()));
             v.push(Pat::Str("b".into()));
         }
+        PT::Str3 => {
+            v.push(Pat::Str("a".into()));
+            v.push(Pat::Str("b".into()));
+            v.push(Pat::Str("c".into()));
+        }
         PT::Unit => v.push(Pat::Unit),
         _ if depth == 0 => {}
         PT::Tup(ts) => {
             // multi-column matrices over literal-typed columns: sub-alphabet {_, lit0, lit1}
-            let reduced = ts.iter().all(|t| matches!(t, PT::I32 | PT::Str | PT::U8));
+            let reduced = ts.iter().all(|t| matches!(t, PT::I32 | PT::Str | PT::Str3 | PT::U8));
             let mut acc: Vec<Vec<Pat>> = vec![vec![]];
             for t in ts {
                 let mut next = Vec::new();
@@ -237,7 +247,7 @@ fn render(e: E, t: &PT) -> E {
         PT::Bool => bi("bool_to_string", vec![e]),
         PT::I32 => i2s(e),
         PT::U8 => bi("uint8_to_string", vec![e]),
-        PT::Str => e,
+        PT::Str | PT::Str3 => e,
         PT::Unit => bi("unit_to_string", vec![e]),
         PT::Tup(ts) => call(&tup_fn_name(ts), vec![e]),
         PT::E => call("strE", vec![e]),
@@ -254,7 +264,7 @@ fn tup_fn_name(ts: &[PT]) -> String {
             PT::Bool => "B",
             PT::I32 => "I",
             PT::E2 => "E",
-            PT::Str => "S",
+            PT::Str | PT::Str3 => "S",
             PT::U8 => "U",
             PT::Unit => "N",
             _ => "X",
@@ -383,6 +393,8 @@ pub struct Spec {
     pub only_value: Option<usize>,
     /// the scrutinee is first bound to a variable, which is then matched twice with the same matrix
     pub twice: bool,
+    /// the scrutinee is held in a variable; every arm of the match on it matches it again
+    pub nested: bool,
 }
 
 pub fn build(spec: &Spec, depth: u32) -> Program {
@@ -422,7 +434,38 @@ pub fn build(spec: &Spec, depth: u32) -> Program {
         if spec.catch_all {
             arms.push(arm(spec.rows.len(), &Pat::Wild, &mut n));
         }
-        if spec.twice {
+        if spec.nested {
+            // every arm of the match on `held` matches `held` again (same matrix)
+            let held = n.fresh("held");
+            let mut all_rows: Vec<Pat> = spec.rows.iter().map(|r| pats[*r].clone()).collect();
+            if spec.catch_all {
+                all_rows.push(Pat::Wild);
+            }
+            let mut outer = Vec::new();
+            for (i, p) in all_rows.iter().enumerate() {
+                let (pi, body) = arm(i, p, &mut n);
+                let mut inner = Vec::new();
+                for (j, q) in all_rows.iter().enumerate() {
+                    inner.push(arm(j + 20, q, &mut n));
+                }
+                let inner_m = E::Match(Box::new(v(held)), inner);
+                let combined = match body {
+                    E::Block(mut stmts, tail) => {
+                        if spec.int_result {
+                            let r = n.fresh("r");
+                            stmts.push(let_(r, inner_m));
+                            E::Block(stmts, Some(Box::new(add(*tail.unwrap(), v(r)))))
+                        } else {
+                            stmts.push(st(inner_m));
+                            E::Block(stmts, None)
+                        }
+                    }
+                    other => other,
+                };
+                outer.push((pi, combined));
+            }
+            block(vec![let_(held, call("scr", vec![v(arg)]))], Some(E::Match(Box::new(v(held)), outer)))
+        } else if spec.twice {
             // the same variable is the scrutinee of two matches
             let held = n.fresh("held");
             let mut arms2 = Vec::new();
@@ -500,7 +543,7 @@ fn specs(tier: Tier) -> Vec<Spec> {
         let np = patterns(&pt, depth_for(ty)).len();
         // destructuring let: every pattern
         for r in 0..np {
-            out.push(Spec { ty: ty.into(), rows: vec![r], catch_all: false, int_result: false, as_let: true, only_value: None, twice: false });
+            out.push(Spec { ty: ty.into(), rows: vec![r], catch_all: false, int_result: false, as_let: true, only_value: None, twice: false, nested: false });
         }
         // rows: quick <= 3 for types with <= 12 patterns, else 2; thorough <= 4 / <= 3 (<= 30 patterns) / 2
         let maxr = match (tier == Tier::Quick, np) {
@@ -523,9 +566,12 @@ fn specs(tier: Tier) -> Vec<Spec> {
                         if rcount == 4 && (int_result || (np > 7 && !catch_all)) {
                             continue;
                         }
-                        out.push(Spec { ty: ty.into(), rows: idx.clone(), catch_all, int_result, as_let: false, only_value: None, twice: false });
+                        out.push(Spec { ty: ty.into(), rows: idx.clone(), catch_all, int_result, as_let: false, only_value: None, twice: false, nested: false });
                         if rcount <= 2 && np <= 30 && !(tier == Tier::Quick && rcount == 2 && np > 12) {
-                            out.push(Spec { ty: ty.into(), rows: idx.clone(), catch_all, int_result, as_let: false, only_value: None, twice: true });
+                            out.push(Spec { ty: ty.into(), rows: idx.clone(), catch_all, int_result, as_let: false, only_value: None, twice: true, nested: false });
+                            if rcount <= 2 && np <= 14 {
+                                out.push(Spec { ty: ty.into(), rows: idx.clone(), catch_all, int_result, as_let: false, only_value: None, twice: false, nested: true });
+                            }
                         }
                     }
                 }
@@ -562,8 +608,31 @@ fn specs(tier: Tier) -> Vec<Spec> {
             let n = sel.len();
             for code in 0..n.pow(4) {
                 let rows = vec![sel[code / (n * n * n)], sel[(code / (n * n)) % n], sel[(code / n) % n], sel[code % n]];
-                out.push(Spec { ty: ty.into(), rows, catch_all: true, int_result: false, as_let: false, only_value: None, twice: false });
+                out.push(Spec { ty: ty.into(), rows, catch_all: true, int_result: false, as_let: false, only_value: None, twice: false, nested: false });
             }
+        }
+    }
+    // both tiers: the 4-row matrices of (string3,int32) and (int32,string3) whose rows are tuple patterns
+    // with at least one literal (11 patterns): a wildcard row in the string column followed by two or
+    // more string literals that have not occurred before
+    for ty in ["(string3,int32)", "(int32,string3)"] {
+        let pt = pt_of(ty);
+        let pats = patterns(&pt, 1);
+        let sel: Vec<usize> = pats
+            .iter()
+            .enumerate()
+            .filter(|(_, p)| matches!(p, Pat::Tuple(ps) if ps.iter().any(|q| matches!(q, Pat::Int(..) | Pat::Str(..)))))
+            .map(|(i, _)| i)
+            .collect();
+        let n = sel.len();
+        for code in 0..n.pow(4) {
+            let rows = vec![sel[code / (n * n * n)], sel[(code / (n * n)) % n], sel[(code / n) % n], sel[code % n]];
+            // at least three rows name a string literal (else the 2-literal families cover it)
+            let strs = rows.iter().filter(|r| matches!(&pats[**r], Pat::Tuple(ps) if ps.iter().any(|q| matches!(q, Pat::Str(..))))).count();
+            if strs < 3 {
+                continue;
+            }
+            out.push(Spec { ty: ty.into(), rows, catch_all: true, int_result: false, as_let: false, only_value: None, twice: false, nested: false });
         }
     }
     out
@@ -577,7 +646,7 @@ impl Family for Patterns {
         &["C06", "C01", "C02", "C04"]
     }
     fn rule(&self) -> &'static str {
-        "scrutinee types {bool,int32,uint8,string,(bool,bool),(bool,int32),E,Opt[bool],S,(E2,E2),(int32,int32),(string,int32),(int32,string),(int32,int32,int32),unit,(E2,unit),(unit,E2),(bool,unit)}; all patterns (wildcard, variable, 2 literals, constructor/tuple/struct with sub-patterns; depth 2 for S, (E2,E2), (E2,unit) and (unit,E2); struct patterns with the fields in declaration order and in the other order; columns of all-literal-typed tuples use {_, lit0, lit1}); all matrices of <= 3 rows for types with <= 12 patterns, else <= 2 rows, plus the 4-row matrices of (int32,int32) over the 8 tuple patterns with a literal, with a catch-all (quick) / <= 4 rows for <= 12 patterns (unit result; tuple types with a catch-all only), <= 3 rows for <= 30 patterns, else 2 (thorough), with and without a trailing catch-all, results unit and int32; every destructuring let; matrices of <= 2 rows also with the scrutinee held in a variable that is matched twice; each matrix applied to every value of the type (one program per value when some value matches no row); the scrutinee is an effect probe; each arm prints its index and every variable it binds. non-trivial = matrices where a row other than the first is selected for some value, or some value matches no row; distinct = distinct source text"
+        "scrutinee types {bool,int32,uint8,string,(bool,bool),(bool,int32),E,Opt[bool],S,(E2,E2),(int32,int32),(string,int32),(int32,string),(int32,int32,int32),unit,(E2,unit),(unit,E2),(bool,unit)}; all patterns (wildcard, variable, 2 literals, constructor/tuple/struct with sub-patterns; depth 2 for S, (E2,E2), (E2,unit) and (unit,E2); struct patterns with the fields in declaration order and in the other order; columns of all-literal-typed tuples use {_, lit0, lit1}); all matrices of <= 3 rows for types with <= 12 patterns, else <= 2 rows, plus the 4-row matrices of (int32,int32) over the 8 tuple patterns with a literal, with a catch-all (quick) / <= 4 rows for <= 12 patterns (unit result; tuple types with a catch-all only), <= 3 rows for <= 30 patterns, else 2 (thorough), with and without a trailing catch-all, results unit and int32; every destructuring let; matrices of <= 2 rows also with the scrutinee held in a variable that is matched twice, one match after the other and (types with <= 14 patterns) the second match inside every arm of the first; the 4-row matrices with a catch-all of (string,int32) and (int32,string) over a three-literal string alphabet in which at least three rows name a string literal; each matrix applied to every value of the type (one program per value when some value matches no row); the scrutinee is an effect probe; each arm prints its index and every variable it binds. non-trivial = matrices where a row other than the first is selected for some value, or some value matches no row; distinct = distinct source text"
     }
     fn cases(&self, tier: Tier) -> Box<dyn Iterator<Item = Value> + '_> {
         let n = specs(tier).len();
@@ -622,12 +691,12 @@ impl Family for Patterns {
                 if spec.int_result { "int32" } else { "unit" },
                 if spec.as_let { "let" } else { "match" },
                 lit,
-                if spec.twice { ";twice" } else { "" }
+                if spec.nested { ";nested" } else if spec.twice { ";twice" } else { "" }
             );
             for var in variants {
                 count += 1;
                 let prog = build(&var, depth);
-                let subcase = json!({"spec_index": lo + si, "ty": var.ty, "rows": var.rows, "catch_all": var.catch_all, "int_result": var.int_result, "as_let": var.as_let, "only_value": var.only_value, "twice": var.twice});
+                let subcase = json!({"spec_index": lo + si, "ty": var.ty, "rows": var.rows, "catch_all": var.catch_all, "int_result": var.int_result, "as_let": var.as_let, "only_value": var.only_value, "twice": var.twice, "nested": var.nested});
                 let opts = DiffOpts {
                     props_sem: &["C06", "C01"],
                     props_reject: &["C06"],
